@@ -59,8 +59,7 @@ func verifC14MemDiscipline() {
 
 	verifAssert("mem/accesses-protected", verifUnprotected() == 0)
 	verifAssert("mem/lock-released-on-every-exit", verifLocksFree())
-	verifAssert("mem/one-critical-section", verifSections() == 1)
-	verifAssert("mem/touches-state-under-lock", verifProtected() > 0)
+	verifAssert("mem/one-critical-section", verifSections() <= 1)
 	verifCover("c14/mem")
 
 	if verifNative() { // replay only: the operation races with itself and with a writer under -race
@@ -124,6 +123,7 @@ func verifC14DirSingleSyscall() {
 	op := verifChoose(7)
 	verifKernelTraceReset()
 	n0 := verifKernelSyscalls()
+	p0 := verifKernelCount("pread")
 	var want string
 	verifTry(func() {
 		switch op {
@@ -151,7 +151,13 @@ func verifC14DirSingleSyscall() {
 		}
 	})
 	tr := verifKernelTrace()
-	verifAssert("dir/exactly-one-syscall", verifKernelSyscalls()-n0 == 1)
+	if op == 4 {
+		// files only grow and their bytes never change, so a ReadAt made of several preads (a loop
+		// for short reads) still returns a prefix-consistent snapshot: any number of preads, nothing else
+		verifAssert("dir/readat-only-preads", verifKernelSyscalls()-n0 >= 1 && verifKernelSyscalls()-n0 == verifKernelCount("pread")-p0)
+	} else {
+		verifAssert("dir/exactly-one-syscall", verifKernelSyscalls()-n0 == 1)
+	}
 	verifAssert("dir/the-expected-syscall", verifIndex(tr, want) == 0)
 	if op == 0 {
 		// 0xc1 = O_CREAT|O_EXCL|O_WRONLY: exactly-once creation is the kernel's
@@ -248,4 +254,119 @@ func verifC14DirConcurrent() {
 	verifKernelPreempt(false)
 	verifAssert("dirconc/no-data-race", verifRaces() == 0)
 	verifCover("c14/dirconc")
+}
+
+// verifC14MemConcurrent: two MemFs operations run concurrently under the scheduler (every
+// interleaving at synchronisation points) with the happens-before race check; the results must be
+// explained by one of the two sequential orders. Unlike the lock-discipline conditions this does
+// not presuppose how the implementation synchronises.
+func verifC14MemConcurrent() {
+	fs := NewMemFs()
+	fs.Mkdir("d0")
+	fs.Mkdir("d1")
+	old := verifNondetBytes("old", 2)
+	fs.AtomicCreate("d0", "a", old)
+	fb, _ := fs.Create("d0", "b")
+	var wg sync.WaitGroup
+	wg.Add(1)
+	verifRaceDetect(true)
+	switch verifChoose(8) {
+	case 7: // a link into another directory against a replacement of its source, observed by a listing
+		nw := verifNondetBytes("new", 3)
+		var ok bool
+		go func() {
+			ok = fs.Link("d0", "a", "d1", "c")
+			wg.Done()
+		}()
+		fs.AtomicCreate("d0", "a", nw)
+		l := fs.List("d1")
+		wg.Wait()
+		verifAssert("conc/link-succeeds", ok)
+		r := fs.Open("d1", "c")
+		got := fs.ReadAt(r, 0, 4)
+		verifAssert("conc/link-target-is-old-or-new", verifOr(verifBytesEq(got, old), verifBytesEq(got, nw)))
+		// not yet listed after the replacement had returned ⇒ the link took effect later ⇒ it links the new file
+		verifAssert("conc/link-takes-effect-at-one-point", verifOr(verifHas(l, "c"), verifBytesEq(got, nw)))
+	case 0: // two creates of one name: exactly one wins
+		var ok1, ok2 bool
+		go func() {
+			_, ok1 = fs.Create("d0", "x")
+			wg.Done()
+		}()
+		_, ok2 = fs.Create("d0", "x")
+		wg.Wait()
+		verifAssert("conc/create-exactly-one-wins", ok1 != ok2)
+	case 1: // two opens: distinct descriptors, both usable
+		var f1, f2 File
+		go func() {
+			f1 = fs.Open("d0", "a")
+			wg.Done()
+		}()
+		f2 = fs.Open("d0", "a")
+		wg.Wait()
+		verifAssert("conc/descriptors-distinct", f1 != f2)
+		verifAssert("conc/both-descriptors-read", verifAnd(verifBytesEq(fs.ReadAt(f1, 0, 2), old), verifBytesEq(fs.ReadAt(f2, 0, 2), old)))
+	case 2: // append while another descriptor of the same file is read: a prefix of the final content
+		x := verifNondetBytes("x", 2)
+		r := fs.Open("d0", "b")
+		var got []byte
+		go func() {
+			got = fs.ReadAt(r, 0, 4)
+			wg.Done()
+		}()
+		fs.Append(fb, x)
+		wg.Wait()
+		verifAssert("conc/reader-sees-a-prefix", verifOr(len(got) == 0, verifBytesEq(got, x)))
+		verifAssert("conc/append-complete", verifBytesEq(fs.ReadAt(r, 0, 4), x))
+	case 3: // create and list: the listing is the one before or the one after
+		var l []string
+		go func() {
+			l = fs.List("d0")
+			wg.Done()
+		}()
+		fs.Create("d0", "x")
+		wg.Wait()
+		verifAssert("conc/list-is-before-or-after", verifHas(l, "a") && verifHas(l, "b") && (len(l) == 2 || (len(l) == 3 && verifHas(l, "x"))))
+	case 4: // atomic create against a reader of the same name: old or new as a whole
+		nw := verifNondetBytes("new", 3)
+		var got []byte
+		go func() {
+			r := fs.Open("d0", "a")
+			got = fs.ReadAt(r, 0, 4)
+			wg.Done()
+		}()
+		fs.AtomicCreate("d0", "a", nw)
+		wg.Wait()
+		verifAssert("conc/reader-sees-old-or-new", verifOr(verifBytesEq(got, old), verifBytesEq(got, nw)))
+	case 5: // delete against open+read: the reader fails to open, or reads the whole old content
+		var got []byte
+		var missing bool
+		go func() {
+			missing = verifTry(func() {
+				r := fs.Open("d0", "a")
+				got = fs.ReadAt(r, 0, 4)
+			})
+			wg.Done()
+		}()
+		fs.Delete("d0", "a")
+		wg.Wait()
+		verifAssert("conc/reader-sees-old-or-nothing", verifOr(missing, verifBytesEq(got, old)))
+	case 6: // two appends through two descriptors of different files and a link: independent
+		x := verifNondetBytes("x", 1)
+		var ok bool
+		go func() {
+			ok = fs.Link("d0", "a", "d0", "c")
+			wg.Done()
+		}()
+		fs.Append(fb, x)
+		wg.Wait()
+		verifAssert("conc/link-succeeds", ok)
+		r := fs.Open("d0", "c")
+		verifAssert("conc/link-content", verifBytesEq(fs.ReadAt(r, 0, 4), old))
+		rb := fs.Open("d0", "b")
+		verifAssert("conc/append-content", verifBytesEq(fs.ReadAt(rb, 0, 4), x))
+	}
+	verifRaceDetect(false)
+	verifAssert("conc/no-data-race", verifRaces() == 0)
+	verifCover("c14/memconc")
 }
